@@ -982,7 +982,7 @@ func (rw *rewriter) instrument(f *ast.File) int {
 			if hasDefault {
 				ncomm--
 			}
-			ordered := ncomm >= 2 // which of several ready cases proceeds is decided by the tape
+			ordered := ncomm >= 1 // every select with a communication case is polled case by case (order from the tape when there are several)
 			term := terminating(st)
 			if rw.typed && (!hasDefault || ordered) && !labelled && len(st.Body.List) > 0 {
 				// The select now sits in a loop, but its channel operands and send
@@ -1058,6 +1058,7 @@ func (rw *rewriter) instrument(f *ast.File) int {
 					nlit := &ast.BasicLit{Kind: token.INT, Value: strconv.Itoa(ncomm)}
 					var none []ast.Stmt
 					var cases []ast.Stmt
+					var recvChans []ast.Expr // per case: the channel of a receive case, nil otherwise
 					i := 0
 					for _, c := range st.Body.List {
 						cc := c.(*ast.CommClause)
@@ -1065,16 +1066,67 @@ func (rw *rewriter) instrument(f *ast.File) int {
 							none = append(append(none, cc.Body...), &ast.BranchStmt{Tok: token.BREAK, Label: label})
 							continue
 						}
-						one := &ast.SelectStmt{Body: &ast.BlockStmt{List: []ast.Stmt{
-							cc,
-							&ast.CommClause{Body: []ast.Stmt{&ast.BranchStmt{Tok: token.CONTINUE}}},
-						}}}
+						// one case: "if <non-blocking attempt> { body } else { continue }";
+						// the attempts (simrt.TrySend/TryRecv) also complete the
+						// rendezvous with a simulated task on an unbuffered channel
+						next := &ast.BlockStmt{List: []ast.Stmt{&ast.BranchStmt{Tok: token.CONTINUE}}}
+						var one ast.Stmt
+						sfx := id + "_" + strconv.Itoa(i)
+						got := ast.NewIdent("simrtGot" + sfx)
+						tryRecv := func(u ast.Expr) ast.Expr {
+							return &ast.CallExpr{Fun: simrtFn("TryRecv"), Args: []ast.Expr{u.(*ast.UnaryExpr).X}}
+						}
+						switch cm := cc.Comm.(type) {
+						case *ast.SendStmt:
+							recvChans = append(recvChans, ast.NewIdent("nil"))
+							one = &ast.IfStmt{Cond: &ast.CallExpr{Fun: simrtFn("TrySend"), Args: []ast.Expr{cm.Chan, cm.Value}}, Body: &ast.BlockStmt{List: cc.Body}, Else: next}
+						case *ast.ExprStmt:
+							x := cm.X
+							for {
+								if p, ok := x.(*ast.ParenExpr); ok {
+									x = p.X
+									continue
+								}
+								break
+							}
+							recvChans = append(recvChans, x.(*ast.UnaryExpr).X)
+							one = &ast.IfStmt{
+								Init: &ast.AssignStmt{Lhs: []ast.Expr{ast.NewIdent("_"), ast.NewIdent("_"), got}, Tok: token.DEFINE, Rhs: []ast.Expr{tryRecv(x)}},
+								Cond: got, Body: &ast.BlockStmt{List: cc.Body}, Else: next}
+						case *ast.AssignStmt:
+							v, ok := ast.NewIdent("simrtV"+sfx), ast.NewIdent("_")
+							rhs := []ast.Expr{v}
+							if len(cm.Lhs) == 2 {
+								ok = ast.NewIdent("simrtOk" + sfx)
+								rhs = append(rhs, ok)
+							}
+							x := cm.Rhs[0]
+							for {
+								if p, isP := x.(*ast.ParenExpr); isP {
+									x = p.X
+									continue
+								}
+								break
+							}
+							recvChans = append(recvChans, x.(*ast.UnaryExpr).X)
+							bind := &ast.AssignStmt{Lhs: cm.Lhs, Tok: cm.Tok, Rhs: rhs}
+							one = &ast.IfStmt{
+								Init: &ast.AssignStmt{Lhs: []ast.Expr{v, ok, got}, Tok: token.DEFINE, Rhs: []ast.Expr{tryRecv(x)}},
+								Cond: got, Body: &ast.BlockStmt{List: append([]ast.Stmt{bind}, cc.Body...)}, Else: next}
+						}
 						cases = append(cases, &ast.CaseClause{List: []ast.Expr{&ast.BasicLit{Kind: token.INT, Value: strconv.Itoa(i)}}, Body: []ast.Stmt{one}})
 						i++
 					}
 					if !hasDefault {
+						// nothing ready: park, registered as a receiver on the
+						// unbuffered channels of the receive cases; a case served by
+						// a sender in the meantime is tried first
+						served := ast.NewIdent("simrtServed" + id)
 						none = []ast.Stmt{
-							&ast.IfStmt{Cond: &ast.UnaryExpr{Op: token.NOT, X: &ast.CallExpr{Fun: simrtFn("Blocked")}}, Body: &ast.BlockStmt{List: []ast.Stmt{simrtCall("RealBlock")}}},
+							&ast.IfStmt{
+								Init: &ast.AssignStmt{Lhs: []ast.Expr{served}, Tok: token.DEFINE, Rhs: []ast.Expr{&ast.CallExpr{Fun: simrtFn("SelectBlocked"), Args: recvChans}}},
+								Cond: &ast.BinaryExpr{X: served, Op: token.GEQ, Y: &ast.BasicLit{Kind: token.INT, Value: "0"}},
+								Body: &ast.BlockStmt{List: []ast.Stmt{&ast.AssignStmt{Lhs: []ast.Expr{start}, Tok: token.ASSIGN, Rhs: []ast.Expr{served}}}}},
 							&ast.AssignStmt{Lhs: []ast.Expr{try}, Tok: token.ASSIGN, Rhs: []ast.Expr{&ast.UnaryExpr{Op: token.SUB, X: &ast.BasicLit{Kind: token.INT, Value: "1"}}}},
 							&ast.BranchStmt{Tok: token.CONTINUE},
 						}
